@@ -90,3 +90,18 @@ Proof.
        try (split; [reflexivity|intros; try reflexivity; lia]).
   exfalso. apply NE. rewrite <- (skipbad_fst_nil _ _ Heql1). exact Heql0.
 Qed.
+
+(* ---- a refused Offer changes nothing — also when the cause is a marshal error or a storage-write error ---- *)
+Lemma faulty_offer_changes_nothing_l c s p sz k s' z :
+  step c s (LOfferF p sz k) = Some (s', z) ->
+  kind c = Pers /\ lock s = Free /\
+  (exists r, s' = setp p (PRet r) s /\ refused_result r = true) /\
+  (size s + sz > cap c -> z = c_full /\ blocking c = false /\ pget p (prods s') = Some (PRet RFull)) /\
+  (size s + sz <= cap c -> z = k /\ pget p (prods s') = Some (PRet (RErr k))) /\
+  size s' = size s /\ items s' = items s /\ inflight s' = inflight s /\ acc s' = acc s /\ hand s' = hand s /\
+  waiting s' = waiting s /\ tok s' = tok s /\ cons s' = cons s /\ held s' = held s /\ pool s' = pool s.
+Proof.
+  intros H. revert H. step_cases; rewrite ?pget_pset_eq;
+    (split; [reflexivity|]); (split; [reflexivity|]); (split; [eexists; split; reflexivity|]);
+    repeat split; intros; try reflexivity; try lia.
+Qed.
